@@ -130,11 +130,18 @@ def actCpl (s : Zchd) (outs : List ZchOut) (isPrio : Bool) : Nat :=
 def actBs (s : Zchd) (outs : List ZchOut) (isPrio : Bool) : Nat :=
   (s.charsToDelete + (if isPrio then s.priorActivationOutputCount else 0) - (actCpl s outs isPrio : Int)).toNat
 
+/-- whether the user's shifts are released before the key loop (a prefix is re-used, no caps-word) -/
+def actRel0 (s : Zchd) (outs : List ZchOut) (isPrio : Bool) : Bool :=
+  decide (actCpl s outs isPrio > 0) && !s.capsWord
+
 theorem activate_events (cfg : Cfg) (s : Zchd) (k : Nat) (outs : List ZchOut) (ctx : Path)
     (isPrio : Bool) (hne : outs.isEmpty = false) :
     (activate cfg s k outs ctx isPrio).2 =
       bspcs (actBs s outs isPrio) ++ (if s.altgr then [OsEv.up KEY_RIGHTALT] else []) ++
-      sendKeysB s.inputKeys s.capsWord s.lsft s.rsft false (outs.drop (actCpl s outs isPrio)) ++
+      (if actRel0 s outs isPrio then
+        (if s.lsft then [OsEv.up KEY_LEFTSHIFT] else []) ++ (if s.rsft then [OsEv.up KEY_RIGHTSHIFT] else [])
+       else []) ++
+      sendKeysB s.inputKeys s.capsWord s.lsft s.rsft (actRel0 s outs isPrio) (outs.drop (actCpl s outs isPrio)) ++
       (if wantsSmartSpace cfg outs then [OsEv.down KEY_SPACE, OsEv.up KEY_SPACE] else []) ++
       (if !s.capsWord then
         (if s.lsft then [OsEv.down KEY_LEFTSHIFT] else []) ++ (if s.rsft then [OsEv.down KEY_RIGHTSHIFT] else [])
@@ -142,7 +149,7 @@ theorem activate_events (cfg : Cfg) (s : Zchd) (k : Nat) (outs : List ZchOut) (c
       (if s.altgr then [OsEv.down KEY_RIGHTALT] else []) := by
   unfold activate
   by_cases hw : wantsSmartSpace cfg outs = true <;> by_cases hf : cfg.smartSpace = .full <;>
-    simp [hne, sendKeys_eq, actBs, actCpl, hw, hf] <;> rfl
+    simp [hne, sendKeys_eq, actBs, actCpl, actRel0, hw, hf] <;> rfl
 
 theorem activate_flags (cfg : Cfg) (s : Zchd) (k : Nat) (outs : List ZchOut) (ctx : Path)
     (isPrio : Bool) :
@@ -156,19 +163,42 @@ theorem activate_flags (cfg : Cfg) (s : Zchd) (k : Nat) (outs : List ZchOut) (ct
   by_cases hw : wantsSmartSpace cfg outs = true <;> by_cases hf : cfg.smartSpace = .full <;>
     by_cases he : outs.isEmpty = true <;> simp [hw, hf, he]
 
-/-- The state after an activation with non-empty output found among the top-level chords. -/
-theorem activate_state (cfg : Cfg) (s : Zchd) (k : Nat) (outs : List ZchOut) (hne : outs.isEmpty = false) :
-    (activate cfg s k outs [] false).1.prioritized =
-      (if hasFollowups cfg.dict [s.inputKeys] then some [s.inputKeys] else none) ∧
-    (activate cfg s k outs [] false).1.priorActivation = some outs ∧
-    (activate cfg s k outs [] false).1.sameHoldActivationCount = s.sameHoldActivationCount + 1 ∧
-    (activate cfg s k outs [] false).1.charsToDelete =
-      displayLen (outs.drop (actCpl s outs false)) + (if wantsSmartSpace cfg outs then 1 else 0) ∧
-    (activate cfg s k outs [] false).1.ticksSinceStateChange = s.ticksSinceStateChange ∧
-    (activate cfg s k outs [] false).1.ticksUntilDisable = cfg.ticksChordDeadline := by
+theorem displayLen_append_aux (a : List ZchOut) (n : Int) :
+    a.foldl (fun n o => n + o.charCount) n = n + displayLen a := by
+  unfold displayLen
+  induction a generalizing n with
+  | nil => simp
+  | cons o os ih =>
+    rw [List.foldl_cons, ih, List.foldl_cons, ih (0 + o.charCount)]
+    omega
+
+theorem displayLen_take_drop (outs : List ZchOut) (n : Nat) :
+    displayLen (outs.take n) + displayLen (outs.drop n) = displayLen outs := by
+  have h : displayLen (outs.take n ++ outs.drop n) = displayLen (outs.take n) + displayLen (outs.drop n) := by
+    unfold displayLen
+    rw [List.foldl_append, displayLen_append_aux]
+    rfl
+  rw [← h, List.take_append_drop]
+
+/-- The state after an activation with non-empty output: the erase count is the whole expansion on
+screen (re-used prefix included) plus the smart space. -/
+theorem activate_state (cfg : Cfg) (s : Zchd) (k : Nat) (outs : List ZchOut) (ctx : Path) (isPrio : Bool)
+    (hne : outs.isEmpty = false) :
+    (activate cfg s k outs ctx isPrio).1.prioritized =
+      (if hasFollowups cfg.dict (ctx ++ [s.inputKeys]) then some (ctx ++ [s.inputKeys]) else none) ∧
+    (activate cfg s k outs ctx isPrio).1.priorActivation = some outs ∧
+    (activate cfg s k outs ctx isPrio).1.sameHoldActivationCount = s.sameHoldActivationCount + 1 ∧
+    (activate cfg s k outs ctx isPrio).1.charsToDelete =
+      displayLen outs + (if wantsSmartSpace cfg outs then 1 else 0) ∧
+    (activate cfg s k outs ctx isPrio).1.priorActivationOutputCount =
+      displayLen outs + (if wantsSmartSpace cfg outs then 1 else 0) ∧
+    (activate cfg s k outs ctx isPrio).1.ticksSinceStateChange = s.ticksSinceStateChange ∧
+    (activate cfg s k outs ctx isPrio).1.ticksUntilDisable = cfg.ticksChordDeadline ∧
+    (activate cfg s k outs ctx isPrio).1.smartSpaceState =
+      (if wantsSmartSpace cfg outs = true ∧ cfg.smartSpace = .full then .sent else s.smartSpaceState) := by
   unfold activate
   by_cases hw : wantsSmartSpace cfg outs = true <;> by_cases hf : cfg.smartSpace = .full <;>
-    simp [hne, hw, hf, actCpl] <;> rfl
+    simp [hne, hw, hf] <;> exact displayLen_take_drop _ _
 
 /-! ### An activation on the buffer -/
 
@@ -206,40 +236,59 @@ theorem run_smartSpace (b : Buf) (c : Bool) :
   · simp [run_nil]
   · simp [run_space]
 
+theorem run_sftUp (b : Buf) (c l r : Bool) (hl : b.lsft = l) (hr : b.rsft = r) :
+    b.run (if c then
+        (if l then [OsEv.up KEY_LEFTSHIFT] else []) ++ (if r then [OsEv.up KEY_RIGHTSHIFT] else [])
+       else []) = { b with lsft := l && !c, rsft := r && !c } := by
+  obtain ⟨rt, bl, br, ba⟩ := b
+  simp only at hl hr
+  subst hl hr
+  cases c <;> cases bl <;> cases br <;>
+    simp [run_append, run_cons, run_nil, step_up_lsft, step_up_rsft]
+
 /-- The events of an activation with non-empty output, run on a buffer whose modifiers agree with
-zippychord's flags: the backspaces, then the (non-shared part of the) expansion typed under the
-user's shift for its first keystroke only, then the smart space; modifiers as before.  In caps-word
-mode the modifiers are preserved as well (the text is then all shifted and not described here). -/
+zippychord's flags: the backspaces, then the (non-shared part of the) expansion — typed under the
+user's shift for its first keystroke only, and only when that is the first character of the whole
+expansion — then the smart space; modifiers as before.  In caps-word mode the modifiers are
+preserved as well (the text is then all shifted and not described here). -/
 theorem run_activate (cfg : Cfg) (s : Zchd) (k : Nat) (outs : List ZchOut) (ctx : Path) (isPrio : Bool)
     (b : Buf) (hne : outs.isEmpty = false) (hk : ∀ o ∈ outs, CharKey o.osc) (hm : ModsAgree s b) :
     ModsAgree s (b.run (activate cfg s k outs ctx isPrio).2) ∧
     (s.capsWord = false →
       (b.run (activate cfg s k outs ctx isPrio).2).rtext =
-        (let t := typeOuts (b.rtext.drop (actBs s outs isPrio)) (s.lsft || s.rsft)
+        (let t := typeOuts (b.rtext.drop (actBs s outs isPrio))
+                    ((s.lsft || s.rsft) && decide (actCpl s outs isPrio = 0))
                     (outs.drop (actCpl s outs isPrio))
          if wantsSmartSpace cfg outs then stroke t KEY_SPACE false false else t)) := by
   obtain ⟨hl, hr, ha⟩ := hm
   rw [activate_events cfg s k outs ctx isPrio hne]
   simp only [run_append, run_bspcs]
-  -- after the backspaces and the AltGr release
   rw [run_altUp _ s.altgr (by simpa using ha)]
-  let s' : Zchd := s
+  rw [run_sftUp (Buf.mk (List.drop (actBs s outs isPrio) b.rtext) b.lsft b.rsft false)
+    (actRel0 s outs isPrio) s.lsft s.rsft hl hr]
   have hkd : ∀ o ∈ outs.drop (actCpl s outs isPrio), CharKey o.osc :=
     fun o ho => hk o (List.mem_of_mem_drop ho)
-  have hinv : LoopInv s false
-      { rtext := List.drop (actBs s outs isPrio) b.rtext, lsft := b.lsft, rsft := b.rsft, ralt := false } :=
-    ⟨by simp [hl], by simp [hr], rfl, by simp⟩
-  have hsend := run_sendKeys s (outs.drop (actCpl s outs isPrio)) false _ hkd hinv
+  have hrel0 : actRel0 s outs isPrio = true → s.capsWord = false := by
+    intro h; unfold actRel0 at h; simp at h; exact h.2
+  have hinv : LoopInv s (actRel0 s outs isPrio)
+      { rtext := List.drop (actBs s outs isPrio) b.rtext, lsft := s.lsft && !actRel0 s outs isPrio,
+        rsft := s.rsft && !actRel0 s outs isPrio, ralt := false } :=
+    ⟨rfl, rfl, rfl, hrel0⟩
+  have hsend := run_sendKeys s (outs.drop (actCpl s outs isPrio)) (actRel0 s outs isPrio) _ hkd hinv
   rw [sendKeys_eq] at hsend
   obtain ⟨hi2, ht2⟩ := hsend
-  generalize hb2 : Buf.run _ (sendKeysB s.inputKeys s.capsWord s.lsft s.rsft false
+  generalize hb2 : Buf.run _ (sendKeysB s.inputKeys s.capsWord s.lsft s.rsft (actRel0 s outs isPrio)
     (outs.drop (actCpl s outs isPrio))) = b2 at hi2 ht2 ⊢
   rw [run_smartSpace]
-  have hcase : ∀ (x f : Bool), x = (f && !(false || (!s.capsWord && !(outs.drop (actCpl s outs isPrio)).isEmpty))) →
+  have hcase : ∀ (x f : Bool), x = (f && !(actRel0 s outs isPrio ||
+      (!s.capsWord && !(outs.drop (actCpl s outs isPrio)).isEmpty))) →
       (x = f ∨ (s.capsWord = false ∧ x = false)) := by
     intro x f hx
-    cases hc : s.capsWord <;> cases hd : (outs.drop (actCpl s outs isPrio)).isEmpty <;> cases f <;>
-      simp [hc, hd] at hx <;> simp [hx]
+    cases hr0 : actRel0 s outs isPrio
+    · cases hc : s.capsWord <;> cases hd : (outs.drop (actCpl s outs isPrio)).isEmpty <;> cases f <;>
+        simp [hr0, hc, hd] at hx <;> simp [hx]
+    · have := hrel0 hr0
+      cases f <;> simp [hr0] at hx <;> simp [hx, this]
   rw [run_sftBack (Buf.mk (if wantsSmartSpace cfg outs then stroke b2.rtext KEY_SPACE false false else b2.rtext)
       b2.lsft b2.rsft b2.ralt) s.capsWord s.lsft s.rsft (hcase _ _ hi2.lsft) (hcase _ _ hi2.rsft)]
   rw [run_altDown (Buf.mk (if wantsSmartSpace cfg outs then stroke b2.rtext KEY_SPACE false false else b2.rtext)
@@ -248,6 +297,14 @@ theorem run_activate (cfg : Cfg) (s : Zchd) (k : Nat) (outs : List ZchOut) (ctx 
   intro hc
   simp only
   rw [ht2 hc]
-  simp
+  have : (!actRel0 s outs isPrio && (s.lsft || s.rsft)) =
+      ((s.lsft || s.rsft) && decide (actCpl s outs isPrio = 0)) := by
+    unfold actRel0
+    rw [hc]
+    by_cases h0 : actCpl s outs isPrio = 0
+    · simp [h0]
+    · have : actCpl s outs isPrio > 0 := by omega
+      simp [h0, this]
+  rw [this]
 
 end KVerif.Zippy
